@@ -274,6 +274,7 @@ class _MockMOFWBEMConnection(ResolverMixin, BaseRepositoryConnection):
                                    obj.reference_class)
                 except CIMError as ce:
                     if ce.status_code == CIM_ERR_NOT_FOUND:
+                        del self.classes[ns][cc.classname]
                         raise CIMError(
                             CIM_ERR_INVALID_PARAMETER,
                             _format("Class {0!A} referenced by element {1!A} "
@@ -301,6 +302,7 @@ class _MockMOFWBEMConnection(ResolverMixin, BaseRepositoryConnection):
                                        eiqualifier.value)
                     except CIMError as ce:
                         if ce.status_code == CIM_ERR_NOT_FOUND:
+                            del self.classes[ns][cc.classname]
                             raise CIMError(
                                 CIM_ERR_INVALID_PARAMETER,
                                 _format("Class {0!A} specified by "
@@ -313,7 +315,13 @@ class _MockMOFWBEMConnection(ResolverMixin, BaseRepositoryConnection):
                         # Only delete when total failure
                         del self.classes[ns][cc.classname]
                         raise
-        self.conn.CreateClass(cc, namespace=ns)
+        try:
+            self.conn.CreateClass(cc, namespace=ns)
+        except Exception:
+            # The repository did not accept the class: Do not keep it in the
+            # local class store, it would shadow the class in the repository.
+            del self.classes[ns][cc.classname]
+            raise
 
     def ModifyClass(self, *args, **kwargs):
         """
